@@ -73,8 +73,8 @@ v("c02-flags-swapped", {"C02", "C05"}, (KFD, "                if (u, v, i) in se
         "                elif (u, v, i) in self.edges_set_to_zero:\n                    self.solver.add_constraint(\n                            self.pi_vars[(u, v, i)] == self.path_weights_vars[(i)],", 1))
 v("c02-round-dropped", {"C02"}, (KFDC, "                round(weights_sol_dict[i])\n                if self.weight_type == int", "                weights_sol_dict[i]\n                if self.weight_type == int", 1))
 v("c02-greedy-accept-always", {"C02", "C05", "C13"}, (KFD, "        if len(paths) <= self.k:\n", "        if len(paths) >= 0:\n", 1))
-v("c02-extra-skip", {"C02", "C10"}, (KFD, "            f_u_v = data[self.flow_attr]\n\n            # We encode that edge_vars[(u,v,i)] * self.path_weights_vars[(i)] = self.pi_vars[(u,v,i)],\n            # assuming self.w_max is a bound for self.path_weights_vars[(i)]\n            for i in range(self.k):\n                if (u, v, i) in self.edges_set_to_zero:",
-                                      "            f_u_v = data[self.flow_attr]\n            if f_u_v == 0:\n                continue\n\n            for i in range(self.k):\n                if (u, v, i) in self.edges_set_to_zero:", 1))
+v("c02-extra-skip", {"C02", "C10"}, (KFD, "            f_u_v = float(data[self.flow_attr])\n\n            # We encode that edge_vars[(u,v,i)] * self.path_weights_vars[(i)] = self.pi_vars[(u,v,i)],\n            # assuming self.w_max is a bound for self.path_weights_vars[(i)]\n            for i in range(self.k):\n                if (u, v, i) in self.edges_set_to_zero:",
+                                      "            f_u_v = float(data[self.flow_attr])\n            if f_u_v == 0:\n                continue\n\n            for i in range(self.k):\n                if (u, v, i) in self.edges_set_to_zero:", 1))
 v("c02-wmax-halved", {"C02"}, (KFD, "        self.w_max = self.weight_type(\n            self.G.get_max_flow_value_and_check_non_negative_flow(\n                flow_attr=self.flow_attr, edges_to_ignore=self.edges_to_ignore\n            )\n        )",
                                 "        self.w_max = self.weight_type(\n            self.G.get_max_flow_value_and_check_non_negative_flow(\n                flow_attr=self.flow_attr, edges_to_ignore=self.edges_to_ignore\n            )\n        ) / 2", 1))
 # ----------------------------------------------------------------------------------------------- C03 / C04 / C09 / C15 searches
@@ -93,11 +93,11 @@ v("c04-cap-provider-constant", {"C04"}, (KPCC, "max_edge_repetition=self.G.numbe
 v("c09-cover-weakened", {"C09"}, (KPC, "                ) >= 1,\n                name=f\"cover_u={u}_v={v}\",", "                ) >= 0,\n                name=f\"cover_u={u}_v={v}\",", 1))
 v("c09-width-cache-always", {"C09", "C17"}, (STD, "        if (edges_to_ignore is None or len(edges_to_ignore) == 0):\n            self.width = width", "        self.width = width", 1))
 v("c09-publish-wrong-model", {"C09", "C13"}, (MPC, "            if model.is_solved():\n                self._solution = dict(model.get_solution())", "            if model.solver.get_model_status() != sw.SolverWrapper.infeasible_status:\n                self._solution = dict(model.get_solution())", 1))
-v("c15-sum-total-dropped", {"C15"}, (MGS, "            == self.total,\n            name=f\"total\",", "            <= self.total,\n            name=f\"total\",", 1))
+v("c15-sum-total-dropped", {"C15"}, (MGS, "            == float(self.total),\n            name=f\"total\",", "            <= float(self.total),\n            name=f\"total\",", 1))
 v("c15-integer-helper-for-multiplicity", {"C15"}, (MGS, "                    self.solver.add_integer_continuous_product_constraint(\n                            integer_var=self.x_vars[(i, j)],",
                                                      "                    self.solver.add_binary_continuous_product_constraint(\n                            binary_var=self.x_vars[(i, j)],", 1))
 v("c15-setcover-objective-unweighted-subscripts-none", {"C15"}, (MSC, "        if self.subset_weights is None:\n            # As documented: if not provided, each subset has weight 1\n            self.subset_weights = [1] * len(subsets)\n", "", 1))
-v("c15-range-short", {"C15"}, (MGS, "max(self.lowerbound+1, len(self.initial_numbers)+2)", "max(self.lowerbound+1, len(self.initial_numbers))", 1))
+v("c15-range-short", {"C15"}, (MGS, "max(self.lowerbound+1, len(self.initial_numbers)+2+extra_for_partitions)", "max(self.lowerbound+1, len(self.initial_numbers)+extra_for_partitions)", 1))
 # ----------------------------------------------------------------------------------------------- C05 / C06
 v("c05-flag-without-constraint", {"C05"}, (AW, "                        self.edges_set_to_one[(u, v, i)] = True\n", "                        self.edges_set_to_one[(u, v, i)] = True\n                        self.edges_set_to_one[(v, u, i)] = True\n", 1))
 v("c05-layer-bound-dropped", {"C05"}, (AW, "            for i in range(min(len(self.walks_to_fix), self.k)):\n                walk = self.walks_to_fix[i]\n                if not walk:\n                    continue\n\n                # Count multiplicities",
@@ -134,7 +134,7 @@ v("c12-onehot-geq", {"C12"}, (SW, "self.quicksum(z[i] for i in range(pieces)) ==
 v("c12-objective-reset-dropped", {"C12"}, (SW, "            # reset objective\n            super().changeColsCost(\n                self.numVariables,\n                np.arange(self.numVariables, dtype=np.int32),\n                np.full(self.numVariables, 0, dtype=np.float64),\n            )\n", "", 1))
 v("c12-getcols-order", {"C12"}, (SW, "status, nret, costs, lowers, uppers, nnz = self.solver.getCols(len(idxs), idxs)", "status, nret, lowers, uppers, costs, nnz = self.solver.getCols(len(idxs), idxs)", 1))
 v("c12-queues-not-cleared", {"C12"}, (SW, "            self._pending_lb_vals.clear()\n", "", 1))
-v("c12-apply-after-run", {"C12"}, (SW, "        self._apply_pending_bound_updates()\n\n        if self.time_limit == float('inf')", "        if self.time_limit == float('inf')", 1))
+v("c12-apply-after-run", {"C12"}, (SW, "        self._apply_pending_bound_updates()\n\n        if self.external_solver == \"highs\":\n            # HiGHS keeps one scheduler", "        if self.external_solver == \"highs\":\n            # HiGHS keeps one scheduler", 1))
 # ----------------------------------------------------------------------------------------------- C13
 v("c13-status-widened", {"C13"}, (AP, "            self.solver.get_model_status() == \"kOptimal\"\n            or self.solver.get_model_status() == 2", "            self.solver.get_model_status() in (\"kOptimal\", \"kTimeLimit\")\n            or self.solver.get_model_status() == 2", 1))
 v("c13-getter-unguarded", {"C13"}, (KPCC, "        if self._solution is None:\n            self.check_is_solved()\n", "        if self._solution is None:\n", 1))
@@ -205,8 +205,8 @@ v("benign-mccormick-rows-reordered", B, (SW, "        self.add_constraint(produc
                                            "        self.add_constraint(product_var >= lb * binary_var, name=name + \"_b\")\n        self.add_constraint(ub * binary_var >= product_var, name=name + \"_a\")\n", 1))
 v("benign-extra-logging", B, (MFD, "            utils.logger.info(f\"{__name__}: iteration with k = {i}\")\n", "            utils.logger.info(f\"{__name__}: iteration with k = {i}\")\n            utils.logger.debug(f\"{__name__}: still searching\")\n", 1))
 v("benign-value-local-in-validation", B, (SSG, "            if data[flow_attr] < 0:\n", "            value_here = data[flow_attr]\n            if value_here < 0:\n", 1))
-v("benign-edge-attr-idiom", B, (KFD, "        for u, v, data in self.G.edges(data=True):\n            if (u, v) in self.edges_to_ignore:\n                continue\n            f_u_v = data[self.flow_attr]\n\n            self.solver.add_constraint(\n                self.solver.quicksum(self.solution_weights_superset[i]",
-                                  "        for u, v in self.G.edges():\n            if (u, v) in self.edges_to_ignore:\n                continue\n            f_u_v = self.G[u][v][self.flow_attr]\n\n            self.solver.add_constraint(\n                self.solver.quicksum(self.solution_weights_superset[i]", 1))
+v("benign-edge-attr-idiom", B, (KFD, "        for u, v, data in self.G.edges(data=True):\n            if (u, v) in self.edges_to_ignore:\n                continue\n            # float(): the solver's `==` accepts Python numbers only, not numpy integer or float32 scalars\n            f_u_v = float(data[self.flow_attr])\n\n            self.solver.add_constraint(\n                self.solver.quicksum(self.solution_weights_superset[i]",
+                                  "        for u, v in self.G.edges():\n            if (u, v) in self.edges_to_ignore:\n                continue\n            f_u_v = float(self.G[u][v][self.flow_attr])\n\n            self.solver.add_constraint(\n                self.solver.quicksum(self.solution_weights_superset[i]", 1))
 # --- reader / translators / flow-safety threshold (round-2 seeds generalised)
 v("benign-reader-renamed-locals", B, (NED, "            for i in range(0, len(path) - 1, 2):\n                # Raise an error if the last two symbols of path[i] are not '.0'\n                if path[i][-2:] != '.0':",
                                         "            for pos in range(0, len(path), 2):\n                i = pos\n                if path[i][-2:] != '.0':", 1))
@@ -233,9 +233,11 @@ v("benign-dp-renamed", B, (SDAG, "            for node in self.topological_order
 # --- C19.R4 conservation validator body
 GU = "flowpaths/utils/graphutils.py"
 v("c19-conservation-extra-exemption", {"C19"}, (GU, "        if G.out_degree(v) == 0 or G.in_degree(v) == 0:\n            continue\n\n        out_flow = 0", "        if G.out_degree(v) <= 1 or G.in_degree(v) == 0:\n            continue\n\n        out_flow = 0", 1))
-v("c19-conservation-one-sided", {"C19"}, (GU, "        if out_flow != in_flow:\n            return False", "        if out_flow > in_flow:\n            return False", 1))
-v("c19-conservation-early-accept", {"C19"}, (GU, "        if out_flow != in_flow:\n            return False\n\n    return True", "        if out_flow != in_flow:\n            return False\n        return True\n\n    return True", 1))
-v("benign-conservation-renamed", B, (GU, "        if out_flow != in_flow:\n            return False", "        if in_flow != out_flow:\n            return False", 1))
+v("c19-conservation-one-sided", {"C19"}, (GU, "        if not math.isclose(out_flow, in_flow, rel_tol=1e-9, abs_tol=1e-9):\n            return False", "        if out_flow > in_flow:\n            return False", 1))
+v("c19-conservation-exact", {"C19"}, (GU, "        if not math.isclose(out_flow, in_flow, rel_tol=1e-9, abs_tol=1e-9):\n            return False", "        if out_flow != in_flow:\n            return False", 1))
+v("c19-conservation-loose", {"C19"}, (GU, "        if not math.isclose(out_flow, in_flow, rel_tol=1e-9, abs_tol=1e-9):\n            return False", "        if not math.isclose(out_flow, in_flow, rel_tol=1e-9, abs_tol=0.5):\n            return False", 1))
+v("c19-conservation-early-accept", {"C19"}, (GU, "        if not math.isclose(out_flow, in_flow, rel_tol=1e-9, abs_tol=1e-9):\n            return False\n\n    return True", "        if not math.isclose(out_flow, in_flow, rel_tol=1e-9, abs_tol=1e-9):\n            return False\n        return True\n\n    return True", 1))
+v("benign-conservation-renamed", B, (GU, "        if not math.isclose(out_flow, in_flow, rel_tol=1e-9, abs_tol=1e-9):\n            return False", "        if not math.isclose(in_flow, out_flow, rel_tol=1e-9, abs_tol=1e-9):\n            return False", 1))
 # --- C17.R5 / C02.R8 peeling
 v("c17-peel-skips-last-edge", {"C17", "C02"}, (SDAG, "            for i in range(len(path) - 1):\n                temp_G[path[i]][path[i + 1]][flow_attr] -= bottleneck", "            for i in range(len(path) - 2):\n                temp_G[path[i]][path[i + 1]][flow_attr] -= bottleneck", 1))
 v("c17-peel-max-instead-of-min", {"C17", "C02"}, (GU, "uBottleneck = min(B[u], G.edges[u, v][flow_attr])", "uBottleneck = max(B[u], G.edges[u, v][flow_attr])", 1))
@@ -245,3 +247,31 @@ v("benign-peel-renamed", B, (SDAG, "            for i in range(len(path) - 1):\n
 # --- decomposition-level benign edits (sa/inline)
 v("benign-rename-private-encoder", B, (KFD, "_encode_flow_decomposition_with_given_weights", "_encode_decomposition_with_given_weights", 2))
 v("benign-extract-objective-helper", B, (KPC, "    def get_solution(self):", "    def _noop_helper(self, x):\n        y = x\n        return y\n\n    def get_solution(self):", 1))
+# --- rules added after the defect hunts (reverts/ holds the break side: the reverse of every repair); shapes the rules must accept
+v("benign-cap-guard-reordered", B, (KFDC, "            (u, v): (data[self.flow_attr] if self.flow_attr in data and (u, v) not in self.edges_to_ignore else self.w_max)\n",
+                                   "            (u, v): (self.w_max if (u, v) in self.edges_to_ignore or self.flow_attr not in data else data[self.flow_attr])\n", 1))
+v("c10-cap-guard-dropped-again", {"C10", "C04"}, (KFDC, "            (u, v): (data[self.flow_attr] if self.flow_attr in data and (u, v) not in self.edges_to_ignore else self.w_max)\n",
+                                              "            (u, v): (data[self.flow_attr] if self.flow_attr in data else self.w_max)\n", 1))
+v("benign-emptiness-ifexp", B, (KFD, "        internal_paths = solution.get(\"_paths_internal\", solution[\"paths\"])\n",
+                                "        internal_paths = solution[\"_paths_internal\"] if \"_paths_internal\" in solution else solution[\"paths\"]\n", 1))
+v("c01-emptiness-on-condensed", {"C01", "C02"}, (KFD, "            if len(internal_path) > 1:\n                non_empty_internal.append(internal_path)\n",
+                                               "            if len(path) > 1:\n                non_empty_internal.append(internal_path)\n", 1))
+v("benign-nan-proof-other-spelling", B, (AP, "            if not (0 < self.subpath_constraints_coverage <= 1):", "            if not (self.subpath_constraints_coverage > 0 and self.subpath_constraints_coverage <= 1):", 1))
+v("c19-nan-range-again", {"C19"}, (AW, "            if not (0 < self.subset_constraints_coverage <= 1):", "            if self.subset_constraints_coverage <= 0 or self.subset_constraints_coverage > 1:", 1))
+v("benign-threads-reset-local", B, (SW, "            if SolverWrapper._highs_scheduler_threads not in (None, self.threads):\n                highspy.Highs.resetGlobalScheduler(True)\n",
+                                   "            if SolverWrapper._highs_scheduler_threads is not None and SolverWrapper._highs_scheduler_threads != self.threads:\n                highspy.Highs.resetGlobalScheduler(True)\n", 1))
+v("c18-scheduler-mirror-misused", {"C18"}, (SW, "            SolverWrapper._highs_scheduler_threads = self.threads\n",
+                                           "            SolverWrapper._highs_scheduler_threads = self.threads\n            self.threads = SolverWrapper._highs_scheduler_threads or self.threads\n", 1))
+v("c13-reset-after-run", {"C13"}, (AP, "        # What was read from a previous run of the solver is not the solution of this run\n        self._solution = None\n        self.edge_vars_sol = {}\n        self.solver.optimize()\n",
+                                   "        self.solver.optimize()\n", 1))
+v("benign-reset-order", B, (AP, "        self._solution = None\n        self.edge_vars_sol = {}\n        self.solver.optimize()\n", "        self.edge_vars_sol = {}\n        self._solution = None\n        self.solver.optimize()\n", 1))
+v("c15-truncate-again", {"C15"}, (MGS, "sorted(round(genset_sol[i]) if self.weight_type == int else float(genset_sol[i]) for i in range(k))", "sorted(int(genset_sol[i]) if self.weight_type == int else float(genset_sol[i]) for i in range(k))", 1))
+v("benign-threshold-spelling", B, (MSC, "if subset_cover_sol[i] > 0.5]", "if subset_cover_sol[i] >= 0.5]", 1))
+v("c17-supply-constant-again", {"C17"}, (GU, "    supply = max(bigNumber, sum(G[x][y][demands_attr] for x, y in G.edges()) + 1)\n", "    supply = bigNumber\n", 1))
+v("benign-supply-two-steps", B, (GU, "    supply = max(bigNumber, sum(G[x][y][demands_attr] for x, y in G.edges()) + 1)\n",
+                                "    total_demand = sum(G[x][y][demands_attr] for x, y in G.edges())\n    supply = max(bigNumber, total_demand + 1)\n", 1))
+v("c20-early-return-again", {"C20"}, (GU, "    # Parse edges: skip blanks and comment/header lines defensively\n", "    if n == 0:\n        return G\n\n    # Parse edges: skip blanks and comment/header lines defensively\n", 1))
+v("c16-error-from-variables-again", {"C16"}, (MEF, "        error = sum(\n            abs(data[self.flow_attr] - self.edge_sol[(u, v)])\n            for u, v, data in self.G.edges(data=True)\n            if (u, v) not in self.edges_to_ignore\n        )\n",
+                                             "        error = sum(self.solver.get_values(self.edge_error_vars).values())\n", 1))
+v("c05-greedy-with-superset-again", {"C05"}, (KFD, " and satisfies_flow_conservation and solution_weights_superset is None:", " and satisfies_flow_conservation:", 1))
+v("c11-length-attr-dropped-again", {"C11", "C10"}, (KPC, "node_flow_attr=node_flow_attr, node_length_attr=length_attr)", "node_flow_attr=node_flow_attr)", 1))
